@@ -85,12 +85,14 @@ def rounding_modes_from_dependency() -> List[str]:
 
 
 # ---------------------------------------------------------------- abstract domain
-class AQ:           # quot + c
-    def __init__(self, c=0):
+class AQ:           # s*quot + c   (s = +1 / -1; quot is the floor quotient of x by y)
+    def __init__(self, c=0, s=1):
         self.c = c
+        self.s = s
 
     def __repr__(self):
-        return f"quot{self.c:+d}" if self.c else "quot"
+        q = "quot" if self.s == 1 else "-quot"
+        return f"{q}{self.c:+d}" if self.c else q
 
 
 class Lin:          # kr*rem + ky*y
@@ -183,6 +185,10 @@ class TableEval:
         if isinstance(st, ast.AnnAssign):
             if st.value is not None:
                 self.assign(st.target, self.ev(st.value))
+            return
+        if isinstance(st, ast.AugAssign) and isinstance(st.target, ast.Name):
+            cur = self.ev(ast.Name(id=st.target.id, ctx=ast.Load()))
+            self.assign(st.target, self.binop(st.op, cur, self.ev(st.value), st))
             return
         if isinstance(st, ast.If):
             if self.truth(self.ev(st.test), st.test):
@@ -306,9 +312,15 @@ class TableEval:
                 a, b = self.ev(n.args[0]), self.ev(n.args[1])
                 if a == "X" and isinstance(b, Lin) and (b.kr, b.ky) == (0, 1):
                     return (AQ(0), Fraction(0) if self.rem_zero else Lin(1, 0))
+                if a == "NX" and isinstance(b, Lin) and (b.kr, b.ky) == (0, 1):
+                    # -x = (-quot - 1)*y + (y - rem)  for 0 < rem < y;   -x = (-quot)*y  for rem == 0
+                    return (AQ(0, -1), Fraction(0)) if self.rem_zero else (AQ(-1, -1), Lin(-1, 1))
                 self.bad(n, "divmod operands")
             if f == "abs" and len(n.args) == 1:
                 v = self.ev(n.args[0])
+                if v in ("X", "NX"):
+                    neg = self.x_sign() < 0
+                    return ("NX" if neg else "X") if v == "X" else ("X" if neg else "NX")
                 if isinstance(v, Fraction):
                     return abs(v)
                 if isinstance(v, Lin):
@@ -340,6 +352,10 @@ class TableEval:
                     return -v
                 if isinstance(v, Lin):
                     return Lin(-v.kr, -v.ky)
+                if isinstance(v, AQ):
+                    return AQ(-v.c, -v.s)
+                if v in ("X", "NX"):
+                    return "NX" if v == "X" else "X"
             self.bad(n, "unary")
         if isinstance(n, ast.BoolOp):
             if isinstance(n.op, ast.And):
@@ -457,13 +473,17 @@ class TableEval:
             if isinstance(l, Lin) and isinstance(r, Lin):
                 return Lin(l.kr + sg * r.kr, l.ky + sg * r.ky)
             if isinstance(l, AQ) and isinstance(r, Fraction) and r.denominator == 1:
-                return AQ(l.c + sg * int(r))
-            if isinstance(r, AQ) and isinstance(l, Fraction) and l.denominator == 1 and sg == 1:
-                return AQ(r.c + int(l))
+                return AQ(l.c + sg * int(r), l.s)
+            if isinstance(r, AQ) and isinstance(l, Fraction) and l.denominator == 1:
+                return AQ(int(l) + sg * r.c, sg * r.s)
+        if isinstance(op, ast.Mult) and isinstance(l, AQ) and r == Fraction(-1):
+            return AQ(-l.c, -l.s)
+        if isinstance(op, ast.Mult) and isinstance(r, AQ) and l == Fraction(-1):
+            return AQ(-r.c, -r.s)
         if isinstance(op, ast.Mod) and isinstance(l, AQ) and isinstance(r, Fraction) and r.denominator == 1:
             m = int(r)
             if m > 0 and 10 % m == 0:
-                return Fraction((self.qclass[1] + l.c) % m)
+                return Fraction((l.s * self.qclass[1] + l.c) % m)
         # x // y and x % y of the two parameters are the quotient and the remainder divmod would give
         if l == "X" and isinstance(r, Lin) and (r.kr, r.ky) == (0, 1):
             if isinstance(op, ast.FloorDiv):
@@ -478,8 +498,17 @@ class TableEval:
             return ("quot*y",)
         # (quot + c) compared / combined with small integers is handled in cmp(); bit test of the parity
         if isinstance(op, ast.BitAnd) and isinstance(l, AQ) and r == Fraction(1):
-            return Fraction((self.qclass[1] + l.c) % 2)
+            return Fraction((l.s * self.qclass[1] + l.c) % 2)
         self.bad(n, "arithmetic")
+
+    def x_sign(self) -> int:
+        """Sign of x = quot*y + rem under y > 0, 0 <= rem < y."""
+        sign = self.qclass[0]
+        if sign in ("<=-2", "-1"):
+            return -1
+        if sign == "0":
+            return 0 if self.rem_zero else 1
+        return 1
 
     def quot_value_class(self, c: int):
         """Possible integer values of quot + c as (lo, hi) inclusive bounds (None = unbounded)."""
@@ -533,16 +562,28 @@ class TableEval:
                 r = Lin(0, 0)
             s = self.lin_sign(Lin(l.kr - r.kr, l.ky - r.ky), node)
         elif isinstance(l, AQ) and isinstance(r, Fraction) and r.denominator == 1:
-            s = self.aq_sign(l.c - int(r), node)
+            s = self.aq_sign(l.c - int(r), node, l.s)
         elif isinstance(r, AQ) and isinstance(l, Fraction) and l.denominator == 1:
-            s = -self.aq_sign(r.c - int(l), node)
+            s = -self.aq_sign(r.c - int(l), node, r.s)
+        elif l in ("X", "NX") and r == Fraction(0):
+            s = self.x_sign() * (1 if l == "X" else -1)
+        elif r in ("X", "NX") and l == Fraction(0):
+            s = -self.x_sign() * (1 if r == "X" else -1)
+        elif isinstance(l, bool) and isinstance(r, bool):
+            s = int(l) - int(r)
         else:
             self.bad(node, "comparison operands")
         return {"Eq": s == 0, "NotEq": s != 0, "Lt": s < 0, "LtE": s <= 0, "Gt": s > 0, "GtE": s >= 0}.get(opn) \
             if opn in ("Eq", "NotEq", "Lt", "LtE", "Gt", "GtE") else self.bad(node, "operator")
 
-    def aq_sign(self, c: int, node) -> int:
-        lo, hi = self.quot_value_class(c)
+    def aq_sign(self, c: int, node, sgn: int = 1) -> int:
+        """Sign of sgn*quot + c."""
+        if sgn == -1:
+            lo0, hi0 = self.quot_value_class(0)
+            lo = None if hi0 is None else -hi0 + c
+            hi = None if lo0 is None else -lo0 + c
+        else:
+            lo, hi = self.quot_value_class(c)
         if lo is not None and lo > 0:
             return 1
         if hi is not None and hi < 0:
